@@ -33,6 +33,12 @@ Proof.
   rewrite skipn_app, Nat.sub_diag, skipn_all; reflexivity.
 Qed.
 
+Lemma firstn_zlen_app' {A} (a : list A) : firstn (Z.to_nat (zlen a)) a = a.
+Proof. unfold zlen; rewrite Nat2Z.id; apply firstn_all. Qed.
+
+Lemma skipn_zlen_app' {A} (a : list A) : skipn (Z.to_nat (zlen a)) a = [].
+Proof. unfold zlen; rewrite Nat2Z.id; apply skipn_all. Qed.
+
 Lemma concat_nonempty_nil (cs : list text) :
   Forall (fun c => c <> []) cs -> concat cs = [] -> cs = [].
 Proof.
@@ -106,12 +112,19 @@ Section IdealFacts.
   Qed.
 End IdealFacts.
 
+Lemma i_step_in_alpha {G} (A : list G) isw (e : ideal G) o :
+  in_alpha A (i_text e) -> in_alpha A (iop_ins o) -> in_alpha A (i_text (i_step isw e o)).
+Proof.
+  unfold in_alpha; rewrite !Forall_forall. intros H1 H2 g Hg.
+  apply i_step_incl in Hg as [Hg|Hg]; auto.
+Qed.
+
 (* ================================================================== TextField *)
 
 Section TextFieldProofs.
   Variable seg : text -> option (list text).
   Variable A : list text.                           (* the cluster alphabet *)
-  Definition inA (cs : list text) : Prop := Forall (fun c => In c A) cs.
+  Notation inA := (in_alpha A).
   (* boundary stability of the segmentation oracle on the alphabet *)
   Hypothesis seg_stable : forall cs, inA cs -> seg (concat cs) = Some cs.
 
@@ -119,22 +132,10 @@ Section TextFieldProofs.
     inA (i_text e) /\ tf_value st = concat (i_text e) /\
     tf_cursor st = i_index e /\ tf_n st = zlen (i_text e).
 
-  (* the TextField state that holds what the ideal editor holds *)
-  Definition tf_of_ideal (e : ideal text) : tf :=
-    mkTf (concat (i_text e)) (i_index e) (zlen (i_text e)).
-
   Lemma tf_of_ideal_rel e : inA (i_text e) -> tf_rel (tf_of_ideal e) e.
   Proof. intros H; repeat split; auto. Qed.
 
-  (* operations within the hypothesis: inserted material is a concatenation of alphabet
-     clusters; CursorTo takes a uint; Value is not assigned behind the widget's back *)
-  Definition tf_op_ok (o : tf_op) : Prop :=
-    match o with
-    | TText s | TInsertApi s => exists ks, inA ks /\ s = concat ks
-    | TCursorToApi i => 0 <= i
-    | TSetValue _ => False
-    | _ => True
-    end.
+  Notation tf_op_ok := (tf_op_ok A).
 
   Lemma inA_app a b : inA (a ++ b) <-> inA a /\ inA b.
   Proof. apply Forall_app. Qed.
@@ -323,4 +324,873 @@ Section TextFieldProofs.
   Proof.
     intros H1 H2 E. apply seg_stable in H1, H2. rewrite E in H1. congruence.
   Qed.
+
+  Lemma tf_abs_ins_ok o : tf_op_ok o -> inA (iop_ins (tf_abs seg o)).
+  Proof.
+    destruct o as [s|k| |s|i| | | | |s]; cbn; try (intros; constructor); try destruct k; try constructor.
+    - intros (ks & Hks & ->). now rewrite (seg_stable _ Hks).
+    - intros (ks & Hks & ->). now rewrite (seg_stable _ Hks).
+    - intros [].
+  Qed.
+
+  Lemma i_step_inA isw e o : inA (i_text e) -> inA (iop_ins o) -> inA (i_text (i_step isw e o)).
+  Proof.
+    unfold inA; rewrite !Forall_forall. intros H1 H2 g Hg.
+    apply i_step_incl in Hg as [Hg|Hg]; auto.
+  Qed.
+
+  (* one operation on the state mirroring the zipper (l, r) yields the state mirroring
+     the zipper after the ideal step *)
+  Lemma tf_handle_st l r o :
+    inA (rev l ++ r) -> tf_op_ok o ->
+    let e' := i_step (fun _ => false) (mkIdeal l r) (tf_abs seg o) in
+    exists log, tf_handle seg (tf_st l r) o = Some (tf_st (i_left e') (i_right e'), log).
+  Proof.
+    intros HA Hok.
+    destruct o as [s|k| |s|i| | | | |s]; cbn [tf_handle tf_abs tf_iop_of tf_op_text i_step i_left i_right].
+    - destruct Hok as (ks & Hks & ->). rewrite (seg_stable _ Hks), tf_Insert_st by assumption.
+      cbn. eauto.
+    - destruct k; cbn [tf_iop_of i_step i_left i_right].
+      + (* Home *) rewrite tf_CursorTo_st by lia. cbn. eauto.
+      + (* End *) cbn [tf_n tf_st]. rewrite tf_CursorTo_st by apply zlen_nonneg.
+        unfold i_make. rewrite firstn_zlen_app' , skipn_zlen_app'. cbn [i_left i_right].
+        rewrite rev_app_distr, rev_involutive. eauto.
+      + (* Right *) cbn [tf_cursor tf_st]. pose proof (zlen_nonneg l). rewrite tf_CursorTo_st by lia.
+        destruct r as [|x r].
+        * unfold i_make. rewrite app_nil_r.
+          rewrite firstn_all2, skipn_all2 by (rewrite rev_length; unfold zlen; lia).
+          cbn [i_left i_right]. rewrite rev_involutive. eauto.
+        * replace (rev l ++ x :: r) with (rev (x :: l) ++ r) by (cbn; now rewrite <- app_assoc).
+          replace (zlen l + 1) with (zlen (x :: l)) by (now rewrite zlen_cons).
+          rewrite i_make_index. cbn. eauto.
+      + (* Left *) destruct l as [|x l].
+        * cbn. eauto.
+        * cbn [tf_cursor tf_st]. rewrite zlen_cons. pose proof (zlen_nonneg l).
+          destruct (zlen l + 1 =? 0) eqn:E; [lia|]. rewrite tf_CursorTo_st by lia.
+          replace (rev (x :: l) ++ r) with (rev l ++ x :: r) by (cbn; now rewrite <- app_assoc).
+          replace (zlen l + 1 - 1) with (zlen l) by lia.
+          rewrite i_make_index. cbn. eauto.
+      + (* Delete *) destruct r as [|x r]; [rewrite tf_DeleteRight_nil | rewrite tf_DeleteRight_cons by assumption]; cbn; eauto.
+      + (* Backspace *) destruct l as [|x l]; [rewrite tf_DeleteLeft_nil | rewrite tf_DeleteLeft_cons by assumption]; cbn; eauto.
+      + (* Kill *) destruct r as [|x r]; [rewrite tf_Kill_nil | rewrite tf_Kill_cons by assumption]; cbn; eauto.
+      + (* Enter *) cbn. eauto.
+    - cbn. eauto.
+    - destruct Hok as (ks & Hks & ->). rewrite (seg_stable _ Hks), tf_Insert_st by assumption.
+      cbn. eauto.
+    - cbn in Hok. rewrite tf_CursorTo_st by assumption. cbn. eauto.
+    - destruct r as [|x r]; [rewrite tf_DeleteRight_nil | rewrite tf_DeleteRight_cons by assumption]; cbn; eauto.
+    - destruct l as [|x l]; [rewrite tf_DeleteLeft_nil | rewrite tf_DeleteLeft_cons by assumption]; cbn; eauto.
+    - destruct r as [|x r]; [rewrite tf_Kill_nil | rewrite tf_Kill_cons by assumption]; cbn; eauto.
+    - cbn. eauto.
+    - destruct Hok.
+  Qed.
+
+  Theorem tf_run_refines e0 os :
+    inA (i_text e0) -> Forall tf_op_ok os ->
+    exists st' log, tf_run seg (tf_of_ideal e0) os = Some (st', log) /\
+      let e' := i_run (fun _ => false) e0 (map (tf_abs seg) os) in
+      st' = tf_of_ideal e' /\ inA (i_text e').
+  Proof.
+    intros HA Hos. revert e0 HA. induction Hos as [|o os Ho _ IH]; intros e0 HA.
+    - cbn. eauto.
+    - destruct e0 as [l r]. cbn [tf_run map i_run fold_left].
+      change (tf_of_ideal (mkIdeal l r)) with (tf_st l r).
+      destruct (tf_handle_st l r o HA Ho) as [log1 H1]. rewrite H1.
+      set (e1 := i_step (fun _ => false) (mkIdeal l r) (tf_abs seg o)) in *.
+      assert (HA1 : inA (i_text e1)) by (apply i_step_inA; [exact HA | now apply tf_abs_ins_ok]).
+      destruct (IH e1 HA1) as (st' & log2 & H2 & H3).
+      change (tf_st (i_left e1) (i_right e1)) with (tf_of_ideal e1). rewrite H2.
+      exists st', (log1 ++ log2). split; [reflexivity|]. exact H3.
+  Qed.
+
+  (* the reading of the refinement: text, cursor index, cached count, range *)
+  Corollary tf_refines_ideal e0 os :
+    inA (i_text e0) -> Forall tf_op_ok os ->
+    exists st' log, tf_run seg (tf_of_ideal e0) os = Some (st', log) /\
+      let e' := i_run (fun _ => false) e0 (map (tf_abs seg) os) in
+      seg (tf_value st') = Some (i_text e') /\ tf_cursor st' = i_index e' /\
+      tf_n st' = zlen (i_text e') /\ 0 <= tf_cursor st' <= zlen (i_text e').
+  Proof.
+    intros HA Hos. destruct (tf_run_refines e0 os HA Hos) as (st' & log & H1 & H2 & H3).
+    exists st', log. split; [exact H1|]. cbv zeta in *. rewrite H2. cbn [tf_of_ideal tf_value tf_cursor tf_n].
+    repeat split; auto using seg_stable.
+    - apply zlen_nonneg.
+    - unfold i_index, i_text. rewrite zlen_app, zlen_rev. pose proof (zlen_nonneg (i_right (i_run (fun _ => false) e0 (map (tf_abs seg) os)))). lia.
+  Qed.
 End TextFieldProofs.
+
+(* OnChange iff the value changed, OnSubmit iff Enter: for any oracle and any state *)
+Lemma tf_callbacks_exact seg st o st' log :
+  tf_handle seg st o = Some (st', log) -> tf_cb_ok o (tf_value st) (tf_value st') log = true.
+Proof.
+  assert (Hcc : forall r, tf_check_changed (tf_value st) r = Some (st', log) ->
+                log = if zlist_eqb (tf_value st') (tf_value st) then [] else [CbChange (tf_value st')]).
+  { intros [x|]; cbn; [|discriminate]. intros H; injection H as <- <-. reflexivity. }
+  assert (Hq : forall r, tf_quiet r = Some (st', log) -> log = []).
+  { intros [x|]; cbn; [|discriminate]. intros H; now injection H. }
+  assert (Hsym : forall a b, zlist_eqb a b = zlist_eqb b a).
+  { intros a b. destruct (zlist_eqb a b) eqn:E1, (zlist_eqb b a) eqn:E2; auto.
+    - apply zlist_eqb_eq in E1; subst. now rewrite zlist_eqb_refl in E2.
+    - apply zlist_eqb_eq in E2; subst. now rewrite zlist_eqb_refl in E1. }
+  assert (Hone : forall v, list_eqb cb_eqb [CbChange v] [CbChange v] = true).
+  { intros v; cbn. now rewrite zlist_eqb_refl. }
+  destruct o as [s|k| |s|i| | | | |s]; cbn [tf_handle tf_cb_ok tf_is_event andb negb].
+  - intros H; apply Hcc in H; subst. rewrite (Hsym (tf_value st)).
+    destruct (zlist_eqb (tf_value st') (tf_value st)); cbn; rewrite ?zlist_eqb_refl; auto.
+  - destruct k; cbn [tf_is_event andb].
+    all: try (intros H; injection H as <- <-; cbn [tf_CursorTo tf_value]; now rewrite zlist_eqb_refl).
+    + destruct (tf_cursor st =? 0); intros H; injection H as <- <-; cbn [tf_CursorTo tf_value]; now rewrite zlist_eqb_refl.
+    + intros H; apply Hcc in H; subst. rewrite (Hsym (tf_value st)).
+      destruct (zlist_eqb (tf_value st') (tf_value st)); cbn; rewrite ?zlist_eqb_refl; auto.
+    + intros H; apply Hcc in H; subst. rewrite (Hsym (tf_value st)).
+      destruct (zlist_eqb (tf_value st') (tf_value st)); cbn; rewrite ?zlist_eqb_refl; auto.
+    + intros H; apply Hcc in H; subst. rewrite (Hsym (tf_value st)).
+      destruct (zlist_eqb (tf_value st') (tf_value st)); cbn; rewrite ?zlist_eqb_refl; auto.
+    + intros H; injection H as <- <-. cbn. now rewrite zlist_eqb_refl.
+  - intros H; injection H as <- <-. now rewrite zlist_eqb_refl.
+  - intros H; apply Hq in H; now subst.
+  - intros H; injection H as <- <-; reflexivity.
+  - intros H; apply Hq in H; now subst.
+  - intros H; apply Hq in H; now subst.
+  - intros H; apply Hq in H; now subst.
+  - intros H; injection H as <- <-; reflexivity.
+  - intros H; injection H as <- <-; reflexivity.
+Qed.
+
+(* ================================================================== textinput *)
+
+Lemma zslice_mid {B} (a b c : list B) : zslice (a ++ b ++ c) (zlen a) (zlen a + zlen b) = Some b.
+Proof.
+  unfold zslice. pose proof (zlen_nonneg a); pose proof (zlen_nonneg b); pose proof (zlen_nonneg c).
+  rewrite !zlen_app.
+  destruct ((zlen a <? 0) || (zlen a + zlen b <? zlen a) || (zlen a + (zlen b + zlen c) <? zlen a + zlen b)) eqn:E; [lia|].
+  rewrite skipn_zlen_app. replace (zlen a + zlen b - zlen a) with (zlen b) by lia.
+  now rewrite firstn_zlen_app.
+Qed.
+
+Lemma zslice_prefix {B} (a c : list B) : zslice (a ++ c) 0 (zlen a) = Some a.
+Proof. apply (zslice_mid [] a c). Qed.
+
+Lemma zslice_suffix {B} (a b : list B) n : n = zlen (a ++ b) -> zslice (a ++ b) (zlen a) n = Some b.
+Proof.
+  intros ->. pose proof (zslice_mid a b []) as H. rewrite app_nil_r in H.
+  rewrite zlen_app. exact H.
+Qed.
+
+Lemma zinsert_mid {B} (a b vs : list B) : zinsert (a ++ b) (zlen a) vs = Some (a ++ vs ++ b).
+Proof.
+  unfold zinsert. pose proof (zlen_nonneg a); pose proof (zlen_nonneg b). rewrite zlen_app.
+  destruct ((zlen a <? 0) || (zlen a + zlen b <? zlen a)) eqn:E; [lia|].
+  now rewrite firstn_zlen_app, skipn_zlen_app.
+Qed.
+
+Lemma zup_mid {B} (a b : list B) : zup (a ++ b) (zlen a) = Some b.
+Proof.
+  unfold zup. pose proof (zlen_nonneg a); pose proof (zlen_nonneg b). rewrite zlen_app.
+  destruct (zlen a + zlen b <=? zlen a) eqn:E.
+  - f_equal. symmetry. apply zlen_zero_nil; lia.
+  - destruct (zlen a <? 0) eqn:E2; [lia|]. now rewrite skipn_zlen_app.
+Qed.
+
+Lemma zdown_mid {B} (a b : list B) : zdown (a ++ b) (zlen a - 1) = Some (rev a).
+Proof.
+  unfold zdown. pose proof (zlen_nonneg a); pose proof (zlen_nonneg b). rewrite zlen_app.
+  destruct (zlen a - 1 <? 0) eqn:E.
+  - f_equal. assert (a = []) as -> by (apply zlen_zero_nil; lia). reflexivity.
+  - destruct (zlen a + zlen b <=? zlen a - 1) eqn:E2; [lia|].
+    replace (zlen a - 1 + 1) with (zlen a) by lia. now rewrite firstn_zlen_app.
+Qed.
+
+Lemma zinsert_st {B} (l r vs : list B) : zinsert (rev l ++ r) (zlen l) vs = Some (rev l ++ vs ++ r).
+Proof. rewrite <- (zlen_rev l). apply zinsert_mid. Qed.
+Lemma zup_st {B} (l r : list B) : zup (rev l ++ r) (zlen l) = Some r.
+Proof. rewrite <- (zlen_rev l). apply zup_mid. Qed.
+Lemma zdown_st {B} (l r : list B) : zdown (rev l ++ r) (zlen l - 1) = Some l.
+Proof. rewrite <- (zlen_rev l), zdown_mid. now rewrite rev_involutive. Qed.
+Lemma zslice_pre_st {B} (l r : list B) : zslice (rev l ++ r) 0 (zlen l) = Some (rev l).
+Proof. rewrite <- (zlen_rev l). apply zslice_prefix. Qed.
+Lemma zslice_suf_st {B} (l r : list B) n : n = zlen l + zlen r -> zslice (rev l ++ r) (zlen l) n = Some r.
+Proof. intros ->. rewrite <- (zlen_rev l). apply zslice_suffix. now rewrite zlen_app. Qed.
+
+Section TextInputProofs.
+  Variable chars : text -> option (list cluster).
+  Variable alnum : Z -> bool.
+  Variable A : list cluster.
+  Notation inA := (in_alpha A).
+  Notation isw := (ti_isw alnum).
+  Hypothesis chars_stable : forall cs, inA cs -> chars (cl_text cs) = Some cs.
+
+  Definition nonempty (c : cluster) : Prop := fst c <> [].
+
+  Lemma alpha_nonempty c : In c A -> nonempty c.
+  Proof.
+    intros Hc Hnil. assert (H1 : inA [c]) by (constructor; [exact Hc|constructor]).
+    apply chars_stable in H1. unfold cl_text in H1; cbn in H1. rewrite Hnil in H1; cbn in H1.
+    assert (H0 : inA []) by constructor. apply chars_stable in H0. cbn in H0. congruence.
+  Qed.
+
+  Lemma inA_nonempty cs : inA cs -> Forall nonempty cs.
+  Proof. intros H; eapply Forall_impl; [|exact H]. apply alpha_nonempty. Qed.
+
+  Lemma is_alnum_isw c : nonempty c -> is_alnum alnum c = Some (isw c).
+  Proof.
+    unfold nonempty, is_alnum, ti_isw. destruct (fst c) as [|r [|r2 t]]; intros H; try reflexivity. contradiction.
+  Qed.
+
+  Lemma cl_text_nil_inv cs : inA cs -> cl_text cs = [] -> cs = [].
+  Proof.
+    intros H E. apply inA_nonempty in H. destruct cs as [|c t]; [reflexivity|].
+    inversion H as [|? ? Hc _]; subst. unfold cl_text in E; cbn in E.
+    apply app_eq_nil in E as [E _]. contradiction.
+  Qed.
+
+  (* --- the word loops --- *)
+
+  Lemma skip_fwd_spec want p r l :
+    Forall nonempty r -> (forall c, In c r -> Bool.eqb (isw c) want = p c) ->
+    skip_while alnum want 1 r (zlen l) = Some (i_index (i_skip_right p l r)).
+  Proof.
+    revert l; induction r as [|c r IH]; intros l Hne Hp; cbn [skip_while i_skip_right]; [reflexivity|].
+    inversion Hne as [|? ? Hc Hr]; subst. rewrite (is_alnum_isw c Hc), (Hp c (or_introl eq_refl)).
+    destruct (p c); [|reflexivity].
+    replace (zlen l + 1) with (zlen (c :: l)) by (now rewrite zlen_cons).
+    apply IH; auto. intros c' Hc'; apply Hp; now right.
+  Qed.
+
+  Lemma skip_back_spec want p l cur :
+    Forall nonempty l -> (forall c, In c l -> Bool.eqb (isw c) want = p c) ->
+    skip_while alnum want (-1) l cur = Some (cur - zlen l + zlen (i_drop_while p l)).
+  Proof.
+    revert cur; induction l as [|c l IH]; intros cur Hne Hp; cbn [skip_while i_drop_while].
+    - f_equal; rewrite zlen_nil; lia.
+    - inversion Hne as [|? ? Hc Hl]; subst. rewrite (is_alnum_isw c Hc), (Hp c (or_introl eq_refl)).
+      destruct (p c).
+      + rewrite IH; auto. * f_equal; rewrite zlen_cons; lia. * intros c' Hc'; apply Hp; now right.
+      + f_equal; lia.
+  Qed.
+
+  Lemma back_word2_spec l r :
+    Forall nonempty l ->
+    exists k, back_word2 alnum l (zlen l - 1) = Some k /\
+              Z.max 0 k = i_index (i_skip_left isw l r) /\ k <= zlen l.
+  Proof.
+    revert r; induction l as [|c l IH]; intros r Hne; cbn [back_word2 i_skip_left].
+    - exists (-1). rewrite zlen_nil. repeat split; cbn; lia.
+    - inversion Hne as [|? ? Hc Hl]; subst. rewrite (is_alnum_isw c Hc). rewrite zlen_cons.
+      pose proof (zlen_nonneg l). destruct (isw c).
+      + replace (zlen l + 1 - 1 - 1) with (zlen l - 1) by lia.
+        destruct (IH (c :: r) Hl) as (k & H1 & H2 & H3). exists k; repeat split; auto; lia.
+      + exists (zlen l + 1). repeat split; [f_equal; lia| |lia].
+        unfold i_index; cbn [i_left]. rewrite zlen_cons; lia.
+  Qed.
+
+  Lemma negb_eqb_false b : Bool.eqb b false = negb b.
+  Proof. now destruct b. Qed.
+  Lemma eqb_true_id b : Bool.eqb b true = b.
+  Proof. now destruct b. Qed.
+
+  (* --- states mirroring a zipper --- *)
+
+  Definition ti_st (l r : list cluster) (off : Z) (paste : text) (prompt : list cluster) : ti :=
+    mkTi (rev l ++ r) (zlen l) off paste prompt.
+
+  Lemma ti_clamp_val content c off p pr :
+    ti_clamp (mkTi content c off p pr) = mkTi content (Z.max 0 (Z.min c (zlen content))) off p pr.
+  Proof.
+    unfold ti_clamp, ti_set; cbn [ti_content ti_cursor ti_offset ti_paste ti_prompt].
+    f_equal. pose proof (zlen_nonneg content).
+    destruct (zlen content <? c) eqn:E1; [destruct (zlen content <? 0) eqn:E2 | destruct (c <? 0) eqn:E2]; lia.
+  Qed.
+
+  Lemma ti_clamp_st l r off p pr : ti_clamp (ti_st l r off p pr) = ti_st l r off p pr.
+  Proof.
+    unfold ti_st. rewrite ti_clamp_val. f_equal. rewrite zlen_app, zlen_rev.
+    pose proof (zlen_nonneg l); pose proof (zlen_nonneg r). lia.
+  Qed.
+
+  Lemma ti_st_of_ideal (e : ideal cluster) off p pr :
+    ti_st (i_left e) (i_right e) off p pr = ti_of_ideal e off p pr.
+  Proof. reflexivity. Qed.
+
+  (* a state whose content is the text of e and whose cursor clamps to the index of e *)
+  Lemma ti_clamp_ideal (e : ideal cluster) c off p pr :
+    Z.max 0 (Z.min c (zlen (i_text e))) = i_index e ->
+    ti_clamp (mkTi (i_text e) c off p pr) = ti_of_ideal e off p pr.
+  Proof. intros H. rewrite ti_clamp_val, H. reflexivity. Qed.
+
+  Lemma ins_each_spec l r ks :
+    ins_each (rev l ++ r) (zlen l) ks = Some (rev (rev ks ++ l) ++ r, zlen (rev ks ++ l)).
+  Proof.
+    revert l; induction ks as [|c ks IH]; intros l; cbn [ins_each rev app]; [reflexivity|].
+    rewrite zinsert_st. replace (rev l ++ [c] ++ r) with (rev (c :: l) ++ r) by (cbn; now rewrite <- app_assoc).
+    replace (zlen l + 1) with (zlen (c :: l)) by (now rewrite zlen_cons).
+    rewrite IH. now rewrite <- (app_assoc (rev ks) [c] l).
+  Qed.
+
+  Definition pasteA (p : text) : Prop := exists ps, inA ps /\ p = cl_text ps.
+
+  Lemma cl_text_app a b : cl_text (a ++ b) = cl_text a ++ cl_text b.
+  Proof. unfold cl_text. now rewrite map_app, concat_app. Qed.
+
+  Lemma index_le_text (e : ideal cluster) : 0 <= i_index e <= zlen (i_text e).
+  Proof.
+    unfold i_index, i_text. rewrite zlen_app, zlen_rev.
+    pose proof (zlen_nonneg (i_left e)); pose proof (zlen_nonneg (i_right e)); lia.
+  Qed.
+
+  (* Update on the state mirroring (l, r) gives the state mirroring the ideal step *)
+  Lemma ti_clamp_zip l r c off p pr :
+    Z.max 0 (Z.min c (zlen l + zlen r)) = zlen l ->
+    ti_clamp (mkTi (rev l ++ r) c off p pr) = ti_of_ideal (mkIdeal l r) off p pr.
+  Proof.
+    intros H. apply (ti_clamp_ideal (mkIdeal l r)). unfold i_text, i_index; cbn [i_left i_right].
+    now rewrite zlen_app, zlen_rev.
+  Qed.
+
+  Ltac znil := change (zlen (@nil cluster)) with 0 in *.
+
+  Lemma ti_update_st l r off paste pr ev :
+    inA (rev l ++ r) -> pasteA paste -> ti_op_ok A (OEv ev) ->
+    let ap := ti_abs_step chars paste (OEv ev) in
+    let e' := i_step isw (mkIdeal l r) (fst ap) in
+    ti_update chars alnum (ti_st l r off paste pr) ev = Some (ti_of_ideal e' off (snd ap) pr).
+  Proof.
+    intros HA HP Hok. pose proof (inA_nonempty _ HA) as Hne.
+    assert (Hl : Forall nonempty l).
+    { apply Forall_app in Hne as [H _]. rewrite <- (rev_involutive l). now apply Forall_rev. }
+    assert (Hr : Forall nonempty r) by (apply Forall_app in Hne as [_ H]; exact H).
+    pose proof (zlen_nonneg l) as Hl0. pose proof (zlen_nonneg r) as Hr0.
+    unfold ti_update, ti_st.
+    destruct ev as [ | |s|k|md s| ]; cbn [ti_abs_step ti_abs1 fst snd i_step i_left i_right ti_update_body
+                                           ti_content ti_cursor ti_offset ti_paste ti_prompt];
+      unfold ti_set; cbn [ti_content ti_cursor ti_offset ti_paste ti_prompt].
+    - (* paste end *)
+      destruct HP as (ps & Hps & ->). unfold chars_or_nil. rewrite (chars_stable _ Hps), zinsert_st.
+      apply f_equal. replace (rev l ++ ps ++ r) with (rev (rev ps ++ l) ++ r)
+        by (now rewrite rev_app_distr, rev_involutive, <- app_assoc).
+      apply ti_clamp_zip. rewrite zlen_app, zlen_rev. pose proof (zlen_nonneg ps). lia.
+    - (* release *) reflexivity.
+    - (* paste chunk *) reflexivity.
+    - destruct k; cbn [ti_abs1 i_step i_left i_right ti_set ti_content ti_cursor ti_offset ti_paste ti_prompt];
+        unfold ti_set; cbn [ti_content ti_cursor ti_offset ti_paste ti_prompt].
+      + (* Home *) apply f_equal. apply (ti_clamp_ideal (mkIdeal [] (rev l ++ r))).
+        unfold i_index, i_text; cbn. pose proof (zlen_nonneg (rev l ++ r)). lia.
+      + (* End *) apply f_equal.
+        assert (E : rev l ++ r = rev (rev r ++ l) ++ []) by (now rewrite rev_app_distr, rev_involutive, app_nil_r).
+        rewrite E.
+        apply (ti_clamp_zip (rev r ++ l) []). repeat (rewrite zlen_app || rewrite zlen_rev). znil. lia.
+      + (* Right *) apply f_equal. destruct r as [|x r].
+        * apply ti_clamp_zip. znil; lia.
+        * replace (rev l ++ x :: r) with (rev (x :: l) ++ r) by (cbn [rev]; now rewrite <- app_assoc).
+          apply ti_clamp_zip. rewrite !zlen_cons in *. pose proof (zlen_nonneg r). lia.
+      + (* Left *) apply f_equal. destruct l as [|x l].
+        * apply ti_clamp_zip. znil; lia.
+        * replace (rev (x :: l) ++ r) with (rev l ++ x :: r) by (cbn [rev]; now rewrite <- app_assoc).
+          apply ti_clamp_zip. rewrite !zlen_cons in *. pose proof (zlen_nonneg l). lia.
+      + (* word forward *)
+        rewrite zup_st.
+        rewrite (skip_fwd_spec false (fun g => negb (isw g)) r l Hr) by (intros; apply negb_eqb_false).
+        set (e1 := i_skip_right (fun g => negb (isw g)) l r).
+        assert (T1 : rev l ++ r = i_text e1) by (symmetry; apply i_skip_right_text).
+        rewrite T1. unfold i_text at 1. change (i_index e1) with (zlen (i_left e1)). rewrite zup_st.
+        assert (Hr1 : Forall nonempty (i_right e1)).
+        { rewrite T1 in Hne. unfold i_text in Hne. now apply Forall_app in Hne as [_ H]. }
+        rewrite (skip_fwd_spec true isw (i_right e1) (i_left e1) Hr1) by (intros; apply eqb_true_id).
+        set (e2 := i_skip_right isw (i_left e1) (i_right e1)).
+        assert (T2 : i_text e1 = i_text e2) by (symmetry; apply i_skip_right_text).
+        apply f_equal. rewrite T2.
+        apply ti_clamp_ideal. pose proof (index_le_text e2). lia.
+      + (* word backward *)
+        rewrite zlen_app, zlen_rev.
+        destruct (zlen l + zlen r <=? zlen l - 1) eqn:E; [lia|]. clear E.
+        rewrite zdown_st.
+        rewrite (skip_back_spec false (fun g => negb (isw g)) l _ Hl) by (intros; apply negb_eqb_false).
+        set (e1 := i_skip_left (fun g => negb (isw g)) l r).
+        assert (L1 : i_drop_while (fun g => negb (isw g)) l = i_left e1) by (symmetry; apply i_skip_left_left).
+        assert (T1 : rev l ++ r = i_text e1) by (symmetry; apply i_skip_left_text).
+        rewrite L1, T1.
+        replace (zlen l - 1 - zlen l + zlen (i_left e1)) with (zlen (i_left e1) - 1) by lia.
+        unfold i_text at 1. rewrite zdown_st.
+        assert (Hl1 : Forall nonempty (i_left e1)).
+        { rewrite T1 in Hne. unfold i_text in Hne. apply Forall_app in Hne as [H _].
+          rewrite <- (rev_involutive (i_left e1)). now apply Forall_rev. }
+        destruct (back_word2_spec (i_left e1) (i_right e1) Hl1) as (k & Hk1 & Hk2 & Hk3). rewrite Hk1.
+        set (e2 := i_skip_left isw (i_left e1) (i_right e1)) in *.
+        assert (T2 : i_text e1 = i_text e2) by (symmetry; apply i_skip_left_text).
+        apply f_equal. rewrite T2.
+        apply ti_clamp_ideal. pose proof (index_le_text e2). pose proof (index_le_text e1).
+        rewrite <- T2. unfold i_index at 2 in H0. lia.
+      + (* Delete *)
+        rewrite zlen_app, zlen_rev. destruct r as [|x r].
+        * znil; rewrite Z.add_0_r, Z.eqb_refl, zslice_pre_st. apply f_equal. cbn [tl].
+          rewrite <- (app_nil_r (rev l)). apply ti_clamp_zip. znil; lia.
+        * rewrite zlen_cons. pose proof (zlen_nonneg r). destruct (zlen l =? zlen l + (zlen r + 1)) eqn:E; [lia|]. clear E.
+          rewrite zslice_pre_st.
+          replace (rev l ++ x :: r) with (rev (x :: l) ++ r) by (cbn [rev]; now rewrite <- app_assoc).
+          replace (zlen l + 1) with (zlen (x :: l)) by (now rewrite zlen_cons).
+          rewrite zslice_suf_st by (rewrite zlen_cons; lia).
+          apply f_equal. cbn [tl]. apply ti_clamp_zip. lia.
+      + (* kill to end *)
+        rewrite zslice_pre_st. apply f_equal.
+        rewrite <- (app_nil_r (rev l)). apply ti_clamp_zip. znil; lia.
+      + (* kill to start *)
+        rewrite zslice_suf_st by (now rewrite zlen_app, zlen_rev). apply f_equal.
+        apply (ti_clamp_zip [] r). znil; lia.
+      + (* backspace *)
+        destruct l as [|x l]; [reflexivity|].
+        rewrite zlen_cons in *. pose proof (zlen_nonneg l). destruct (zlen l + 1 =? 0) eqn:E; [lia|]. clear E.
+        rewrite zlen_app, zlen_rev, zlen_cons. replace (zlen l + 1 - 1) with (zlen l) by lia.
+        replace (rev (x :: l) ++ r) with (rev l ++ x :: r) by (cbn [rev]; now rewrite <- app_assoc).
+        rewrite zslice_pre_st. cbn [tl].
+        destruct r as [|y r].
+        * znil; rewrite Z.add_0_r, Z.eqb_refl. apply f_equal.
+          rewrite <- (app_nil_r (rev l)). apply ti_clamp_zip. znil; lia.
+        * rewrite zlen_cons. pose proof (zlen_nonneg r). destruct (zlen l + 1 =? zlen l + 1 + (zlen r + 1)) eqn:E; [lia|]. clear E.
+          replace (rev l ++ x :: y :: r) with (rev (x :: l) ++ y :: r) by (cbn [rev]; now rewrite <- app_assoc).
+          replace (zlen l + 1) with (zlen (x :: l)) by (now rewrite zlen_cons).
+          rewrite zslice_suf_st by (rewrite !zlen_cons; lia).
+          apply f_equal. apply ti_clamp_zip. rewrite !zlen_cons. lia.
+      + (* kill word *)
+        destruct l as [|x l0]; [reflexivity|]. set (l := x :: l0) in *.
+        assert (Hlpos : zlen l = zlen l0 + 1) by (unfold l; now rewrite zlen_cons).
+        pose proof (zlen_nonneg l0). destruct (zlen l =? 0) eqn:E; [lia|]. clear E.
+        rewrite zdown_st.
+        rewrite (skip_back_spec false (fun g => negb (isw g)) l _ Hl) by (intros; apply negb_eqb_false).
+        replace (zlen l - zlen l + zlen (i_drop_while (fun g => negb (isw g)) l))
+          with (zlen (i_drop_while (fun g => negb (isw g)) l)) by lia.
+        set (e1 := i_skip_left (fun g => negb (isw g)) l r).
+        assert (L1 : i_drop_while (fun g => negb (isw g)) l = i_left e1) by (symmetry; apply i_skip_left_left).
+        assert (T1 : rev l ++ r = i_text e1) by (symmetry; apply i_skip_left_text).
+        rewrite L1. rewrite T1 at 1. unfold i_text at 1. rewrite zdown_st.
+        assert (Hl1 : Forall nonempty (i_left e1)).
+        { rewrite T1 in Hne. unfold i_text in Hne. apply Forall_app in Hne as [Hx _].
+          rewrite <- (rev_involutive (i_left e1)). now apply Forall_rev. }
+        rewrite (skip_back_spec true isw (i_left e1) _ Hl1) by (intros; apply eqb_true_id).
+        replace (zlen (i_left e1) - zlen (i_left e1) + zlen (i_drop_while isw (i_left e1)))
+          with (zlen (i_drop_while isw (i_left e1))) by lia.
+        set (e2 := i_skip_left isw (i_left e1) (i_right e1)).
+        assert (L2 : i_drop_while isw (i_left e1) = i_left e2) by (symmetry; apply i_skip_left_left).
+        assert (T2 : i_text e1 = i_text e2) by (symmetry; apply i_skip_left_text).
+        rewrite L2. rewrite T1 at 1. rewrite T2. unfold i_text at 1. rewrite zslice_pre_st.
+        rewrite zslice_suf_st by (now rewrite zlen_app, zlen_rev).
+        apply f_equal. rewrite <- L2, <- L1.
+        apply ti_clamp_zip.
+        pose proof (zlen_nonneg (i_drop_while isw (i_drop_while (fun g => negb (isw g)) l))). lia.
+    - (* default *)
+      destruct md; [reflexivity|]. cbn in Hok. destruct Hok as (ks & Hks & ->).
+      unfold chars_or_nil. rewrite (chars_stable _ Hks).
+      destruct (cl_text ks) eqn:E.
+      + apply cl_text_nil_inv in E; [|exact Hks]. subst ks. cbn [rev app].
+        apply f_equal. apply ti_clamp_zip. lia.
+      + rewrite ins_each_spec. apply f_equal. cbn [i_step i_left i_right].
+        unfold ti_set; cbn [ti_offset ti_paste ti_prompt].
+        apply ti_clamp_zip. pose proof (zlen_nonneg (rev ks ++ l)). lia.
+    - (* other *) apply f_equal. apply ti_clamp_zip. lia.
+  Qed.
+
+  Lemma ti_set_content_st m ks :
+    inA ks -> ti_set_content chars m (cl_text ks) =
+              Some (ti_of_ideal (mkIdeal (rev ks) []) (ti_offset m) (ti_paste m) (ti_prompt m)).
+  Proof.
+    intros H. unfold ti_set_content, ti_of_ideal, ti_set, i_text, i_index; cbn [i_left i_right].
+    now rewrite (chars_stable _ H), rev_involutive, app_nil_r, zlen_rev.
+  Qed.
+End TextInputProofs.
+
+(* --- Draw terminates: the fuel of the model always suffices --- *)
+
+Lemma scroll_loop_fuel fuel cs cursor offset col w :
+  (Z.to_nat (cursor - offset) < fuel)%nat -> scroll_loop fuel cs cursor offset col w <> None.
+Proof.
+  revert offset; induction fuel as [|f IH]; intros offset Hf; [lia|].
+  cbn [scroll_loop].
+  destruct ((width_to_cursor cs cursor offset + col + scrolloff >=? w) && (offset <? cursor)) eqn:E; [|discriminate].
+  apply IH. apply andb_true_iff in E as [_ E]. lia.
+Qed.
+
+Lemma ti_draw_no_hang m w : ti_draw m w <> DrawHang.
+Proof.
+  unfold ti_draw. destruct (w =? 0); [discriminate|].
+  destruct (prompt_walk (ti_prompt m) 0 w) as [col|]; [|discriminate].
+  destruct (scroll_loop (scroll_fuel m) (ti_content m) (ti_cursor m) (ti_offset m) col w) eqn:E; [discriminate|].
+  exfalso. revert E. apply scroll_loop_fuel. unfold scroll_fuel. lia.
+Qed.
+
+Section TextInputRun.
+  Variable chars : text -> option (list cluster).
+  Variable alnum : Z -> bool.
+  Variable A : list cluster.
+  Notation inA := (in_alpha A).
+  Notation isw := (ti_isw alnum).
+  Hypothesis chars_stable : forall cs, inA cs -> chars (cl_text cs) = Some cs.
+
+  Lemma ti_abs_step_ok paste o :
+    pasteA A paste -> ti_op_ok A o ->
+    inA (iop_ins (fst (ti_abs_step chars paste o))) /\ pasteA A (snd (ti_abs_step chars paste o)).
+  Proof.
+    intros HP Hok. assert (Hnil : inA []) by constructor.
+    destruct o as [ev|s|w]; [destruct ev as [ | |s|k|md s| ] | |]; cbn [ti_abs_step ti_abs1 fst snd iop_ins]; auto.
+    - destruct HP as (ps & Hps & ->). unfold chars_or_nil. rewrite (chars_stable _ Hps). split; auto.
+      exists []; split; auto.
+    - destruct Hok as (ks & Hks & ->). destruct HP as (ps & Hps & ->). split; auto.
+      exists (ps ++ ks). split; [apply Forall_app; auto|]. now rewrite cl_text_app.
+    - destruct k; cbn; auto.
+    - destruct md; cbn [iop_ins]; auto. destruct Hok as (ks & Hks & ->).
+      unfold chars_or_nil. rewrite (chars_stable _ Hks). auto.
+    - destruct Hok as (ks & Hks & ->). unfold chars_or_nil. rewrite (chars_stable _ Hks). auto.
+  Qed.
+
+  Lemma ti_step_st e off paste pr o :
+    inA (i_text e) -> pasteA A paste -> ti_op_ok A o ->
+    let ap := ti_abs_step chars paste o in
+    exists off' shown,
+      ti_step chars alnum (ti_of_ideal e off paste pr) o =
+      TiOk (ti_of_ideal (i_step isw e (fst ap)) off' (snd ap) pr) shown.
+  Proof.
+    intros HA HP Hok. destruct e as [l r]. destruct o as [ev|s|w]; cbn [ti_step].
+    - change (ti_of_ideal (mkIdeal l r) off paste pr) with (ti_st l r off paste pr).
+      rewrite (ti_update_st chars alnum A chars_stable l r off paste pr ev HA HP Hok). eauto.
+    - destruct Hok as (ks & Hks & ->). rewrite (ti_set_content_st chars A chars_stable _ ks Hks).
+      cbn [ti_abs_step ti_abs1 fst snd i_step]. unfold chars_or_nil. rewrite (chars_stable _ Hks).
+      cbn [ti_of_ideal ti_offset ti_paste ti_prompt]. eauto.
+    - pose proof (ti_draw_no_hang (ti_of_ideal (mkIdeal l r) off paste pr) w) as Hh.
+      destruct (ti_draw (ti_of_ideal (mkIdeal l r) off paste pr) w) as [|o shown]; [contradiction|].
+      cbn. exists o, shown. reflexivity.
+  Qed.
+
+  Theorem ti_run_refines e0 off paste pr os :
+    inA (i_text e0) -> pasteA A paste -> Forall (ti_op_ok A) os ->
+    exists off', ti_run chars alnum (ti_of_ideal e0 off paste pr) os =
+      Some (ti_of_ideal (i_run isw e0 (ti_abs chars paste os)) off'
+                        (fold_left (fun p o => snd (ti_abs_step chars p o)) os paste) pr) /\
+      inA (i_text (i_run isw e0 (ti_abs chars paste os))).
+  Proof.
+    intros HA HP Hos. revert e0 off paste HA HP. induction Hos as [|o os Ho _ IH]; intros e0 off paste HA HP.
+    - cbn. eauto.
+    - cbn [ti_run ti_abs i_run fold_left].
+      destruct (ti_step_st e0 off paste pr o HA HP Ho) as (off1 & shown & H1). rewrite H1.
+      destruct (ti_abs_step_ok paste o HP Ho) as [Hi Hp1].
+      apply IH; [now apply i_step_in_alpha | exact Hp1].
+  Qed.
+End TextInputRun.
+
+(* ================================================================== a concrete stable oracle
+   (non-vacuity of the stability hypothesis): longest-known-prefix tokenisation over an
+   alphabet in which a cluster is determined by its first rune *)
+
+Fixpoint strip_prefix (p t : text) : option text :=
+  match p, t with
+  | [], _ => Some t
+  | x :: p', y :: t' => if x =? y then strip_prefix p' t' else None
+  | _ :: _, [] => None
+  end.
+
+Fixpoint match_first (A : list cluster) (t : text) : option (cluster * text) :=
+  match A with
+  | [] => None
+  | c :: A' => match fst c with
+               | [] => match_first A' t
+               | _ => match strip_prefix (fst c) t with
+                      | Some rest => Some (c, rest)
+                      | None => match_first A' t
+                      end
+               end
+  end.
+
+Fixpoint chars_tab_fuel (fuel : nat) (A : list cluster) (t : text) : option (list cluster) :=
+  match t with
+  | [] => Some []
+  | _ => match fuel with
+         | O => None
+         | S f => match match_first A t with
+                  | Some (c, rest) => match chars_tab_fuel f A rest with
+                                      | Some cs => Some (c :: cs)
+                                      | None => None
+                                      end
+                  | None => None
+                  end
+         end
+  end.
+Definition chars_tab (A : list cluster) (t : text) : option (list cluster) :=
+  chars_tab_fuel (length t) A t.
+Definition seg_tab (A : list cluster) (t : text) : option (list text) :=
+  match chars_tab A t with Some cs => Some (map fst cs) | None => None end.
+
+(* no empty cluster, and two clusters with the same first rune are the same cluster *)
+Definition head_distinct (A : list cluster) : Prop :=
+  (forall c, In c A -> fst c <> []) /\
+  (forall c d, In c A -> In d A -> hd 0 (fst c) = hd 0 (fst d) -> c = d).
+
+Lemma strip_prefix_app p t : strip_prefix p (p ++ t) = Some t.
+Proof. induction p as [|x p IH]; simpl; [reflexivity|]. now rewrite Z.eqb_refl. Qed.
+
+Lemma strip_prefix_head p t rest : strip_prefix p t = Some rest -> p <> [] -> hd 0 p = hd 0 t.
+Proof.
+  destruct p as [|x p]; [congruence|]. destruct t as [|y t]; simpl; [discriminate|].
+  destruct (x =? y) eqn:E; [|discriminate]. intros _ _. lia.
+Qed.
+
+Lemma match_first_stable A c t :
+  head_distinct A -> In c A -> match_first A (fst c ++ t) = Some (c, t).
+Proof.
+  intros [Hne Hd] Hc.
+  assert (G : forall B, (forall d, In d B -> In d A) -> In c B -> match_first B (fst c ++ t) = Some (c, t)).
+  { induction B as [|d B IH]; intros Hsub HcB; [destruct HcB|]. cbn [match_first].
+    assert (HdA : In d A) by (apply Hsub; now left).
+    pose proof (Hne d HdA) as Hdne. destruct (fst d) as [|x dt] eqn:Ed; [contradiction|].
+    rewrite <- Ed. destruct (strip_prefix (fst d) (fst c ++ t)) as [rest|] eqn:Es.
+    - assert (d = c) as ->.
+      { apply Hd; auto. apply strip_prefix_head in Es; [|now rewrite Ed].
+        rewrite Es. pose proof (Hne c Hc). destruct (fst c); [contradiction|reflexivity]. }
+      rewrite strip_prefix_app in Es. injection Es as <-. reflexivity.
+    - destruct HcB as [->|HcB]; [now rewrite strip_prefix_app in Es|].
+      apply IH; auto. intros d' Hd'. apply Hsub; now right. }
+  apply G; auto.
+Qed.
+
+Lemma chars_tab_fuel_stable A cs fuel :
+  head_distinct A -> in_alpha A cs -> (length (cl_text cs) <= fuel)%nat ->
+  chars_tab_fuel fuel A (cl_text cs) = Some cs.
+Proof.
+  intros HD. revert fuel; induction cs as [|c cs IH]; intros fuel HA Hf.
+  - destruct fuel; reflexivity.
+  - inversion HA as [|? ? Hc Hcs]; subst. unfold cl_text in *; cbn [map concat] in *.
+    pose proof (proj1 HD c Hc) as Hne. rewrite app_length in Hf.
+    destruct (fst c) as [|x ct] eqn:Ec; [contradiction|]. cbn [app length] in *.
+    destruct fuel as [|f]; [lia|]. cbn [chars_tab_fuel].
+    change (x :: ct ++ concat (map fst cs)) with ((x :: ct) ++ concat (map fst cs)).
+    rewrite <- Ec, match_first_stable by assumption. rewrite IH; auto. lia.
+Qed.
+
+Lemma chars_tab_stable A cs : head_distinct A -> in_alpha A cs -> chars_tab A (cl_text cs) = Some cs.
+Proof. intros HD HA. apply chars_tab_fuel_stable; auto. Qed.
+
+Lemma in_alpha_map_fst (A : list cluster) (ts : list text) :
+  in_alpha (map fst A) ts -> exists cs, in_alpha A cs /\ map fst cs = ts.
+Proof.
+  induction ts as [|t ts IH]; intros H.
+  - exists []; split; [constructor|reflexivity].
+  - inversion H as [|? ? Ht Hts]; subst. apply in_map_iff in Ht as (c & <- & Hc).
+    destruct (IH Hts) as (cs & H1 & <-). exists (c :: cs). split; [constructor; auto|reflexivity].
+Qed.
+
+Lemma seg_tab_stable A ts : head_distinct A -> in_alpha (map fst A) ts -> seg_tab A (concat ts) = Some ts.
+Proof.
+  intros HD H. destruct (in_alpha_map_fst A ts H) as (cs & H1 & <-).
+  unfold seg_tab. fold (cl_text cs). now rewrite chars_tab_stable.
+Qed.
+
+(* the alphabet of the examples: narrow letters and digits, punctuation, wide CJK, a
+   combining sequence, a ZWJ sequence, a flag *)
+Definition demo_alpha : list cluster :=
+  [([97], 1); ([98], 1); ([49], 1); ([32], 1); ([45], 1); ([19990], 2); ([30028], 2);
+   ([101; 769], 1); ([128105; 8205; 128103], 2); ([127462; 127482], 2)].
+Definition demo_alnum (r : Z) : bool := existsb (Z.eqb r) [97; 98; 49; 19990; 30028; 101].
+
+Lemma demo_alpha_head_distinct : head_distinct demo_alpha.
+Proof.
+  split.
+  - intros c Hc. cbn in Hc. repeat (destruct Hc as [<-|Hc]; [discriminate|]). destruct Hc.
+  - intros c d Hc Hd. cbn in Hc, Hd.
+    repeat (destruct Hc as [<-|Hc]; [repeat (destruct Hd as [<-|Hd]; [cbn; intros; (reflexivity || discriminate)|]); destruct Hd|]).
+    destruct Hc.
+Qed.
+
+(* ================================================================== drawn cursor column *)
+
+Definition widths_ok (cs : list cluster) : Prop := Forall (fun c => 0 <= snd c) cs.
+
+Lemma cl_width_cons c cs : cl_width (c :: cs) = snd c + cl_width cs.
+Proof. reflexivity. Qed.
+
+Lemma cl_width_nonneg cs : widths_ok cs -> 0 <= cl_width cs.
+Proof. induction 1 as [|c cs Hc _ IH]; [cbn; lia | rewrite cl_width_cons; lia]. Qed.
+
+Lemma firstn_succ_cons {B} (x : B) l k : 0 < k -> firstn (Z.to_nat k) (x :: l) = x :: firstn (Z.to_nat (k - 1)) l.
+Proof. intros H. replace (Z.to_nat k) with (S (Z.to_nat (k - 1))) by lia. reflexivity. Qed.
+
+Lemma u16_small x : 0 <= x < 65536 -> u16 x = x.
+Proof. intros H; unfold u16; now apply Z.mod_small. Qed.
+
+(* TextField.Draw *)
+Lemma tf_draw_walk_spec cs : forall i col ccol cursor,
+  widths_ok cs -> 0 <= col -> col + cl_width cs < 65536 ->
+  tf_draw_walk cs i col ccol cursor =
+  (i + zlen cs, col + cl_width cs,
+   if (i <? cursor) && (cursor <=? i + zlen cs)
+   then col + cl_width (firstn (Z.to_nat (cursor - i)) cs) else ccol).
+Proof.
+  induction cs as [|c cs IH]; intros i col ccol cursor Hw Hc Hf.
+  - cbn [tf_draw_walk]. rewrite zlen_nil. cbn [cl_width fold_right].
+    destruct ((i <? cursor) && (cursor <=? i + 0)) eqn:E; [lia|]. repeat f_equal; lia.
+  - inversion Hw as [|? ? Hc0 Hw']; subst. pose proof (cl_width_nonneg cs Hw') as Hn.
+    rewrite cl_width_cons in Hf. cbn [tf_draw_walk].
+    rewrite (u16_small (snd c)) by lia. rewrite (u16_small (col + snd c)) by lia.
+    rewrite IH by (auto; lia). rewrite zlen_cons, cl_width_cons. pose proof (zlen_nonneg cs) as Hz.
+    f_equal; [f_equal; lia|].
+    destruct (i + 1 =? cursor) eqn:E1.
+    + assert (cursor = i + 1) as -> by lia.
+      destruct ((i + 1 <? i + 1) && (i + 1 <=? i + 1 + zlen cs)) eqn:E2; [lia|].
+      destruct ((i <? i + 1) && (i + 1 <=? i + (zlen cs + 1))) eqn:E3; [|lia].
+      rewrite firstn_succ_cons by lia. replace (i + 1 - i - 1) with 0 by lia.
+      cbn [Z.to_nat firstn]. rewrite cl_width_cons. cbn [cl_width fold_right]. lia.
+    + destruct ((i + 1 <? cursor) && (cursor <=? i + 1 + zlen cs)) eqn:E2.
+      * destruct ((i <? cursor) && (cursor <=? i + (zlen cs + 1))) eqn:E3; [|lia].
+        rewrite firstn_succ_cons by lia. rewrite cl_width_cons.
+        replace (cursor - i - 1) with (cursor - (i + 1)) by lia. lia.
+      * destruct ((i <? cursor) && (cursor <=? i + (zlen cs + 1))) eqn:E3; [lia|reflexivity].
+Qed.
+
+Theorem tf_drawn_cursor_column chars st maxw maxh cs :
+  maxw <> 0 -> maxh <> 0 -> chars (tf_value st) = Some cs -> widths_ok cs ->
+  cl_width cs < maxw -> maxw <= 65535 -> 0 <= tf_cursor st <= zlen cs ->
+  tf_draw chars st maxw maxh = Some (cl_width (firstn (Z.to_nat (tf_cursor st)) cs)).
+Proof.
+  intros Hw Hh Hc Hok Hfit Hmax Hcur. unfold tf_draw.
+  destruct ((maxw =? 0) || (maxh =? 0)) eqn:E; [lia|]. rewrite Hc.
+  rewrite tf_draw_walk_spec by (auto; lia).
+  destruct (0 + zlen cs <? tf_cursor st) eqn:E1; [lia|].
+  destruct ((0 <? tf_cursor st) && (tf_cursor st <=? 0 + zlen cs)) eqn:E2.
+  - f_equal. rewrite Z.sub_0_r. lia.
+  - assert (tf_cursor st = 0) as -> by lia. reflexivity.
+Qed.
+
+(* textinput Draw *)
+Section TextInputDraw.
+  Lemma prompt_walk_fit p : forall col w,
+    widths_ok p -> col + cl_width p < w -> prompt_walk p col w = Some (col + cl_width p).
+  Proof.
+    induction p as [|c p IH]; intros col w Hw Hf; cbn [prompt_walk].
+    - cbn; f_equal; lia.
+    - inversion Hw as [|? ? Hc Hw']; subst. pose proof (cl_width_nonneg p Hw').
+      rewrite cl_width_cons in *. destruct (col + snd c >=? w) eqn:E; [lia|].
+      rewrite IH by (auto; lia). f_equal; lia.
+  Qed.
+
+  Lemma wtc_bounds cs : forall i cursor offset w0,
+    widths_ok cs -> w0 <= wtc cs i cursor offset w0 <= w0 + cl_width cs.
+  Proof.
+    induction cs as [|c cs IH]; intros i cursor offset w0 Hw; cbn [wtc].
+    - cbn; lia.
+    - inversion Hw as [|? ? Hc Hw']; subst. pose proof (cl_width_nonneg cs Hw'). rewrite cl_width_cons.
+      destruct (i <? offset).
+      + specialize (IH (i + 1) cursor offset w0 Hw'). lia.
+      + destruct (i =? cursor); [lia|].
+        specialize (IH (i + 1) cursor offset (w0 + snd c) Hw'). lia.
+  Qed.
+
+  Lemma draw_walk_fit cs : forall i col ccol cursor w,
+    widths_ok cs -> 0 <= i -> col + cl_width cs < w ->
+    draw_walk cs i col ccol cursor 0 w =
+    if (i <? cursor) && (cursor <=? i + zlen cs)
+    then col + cl_width (firstn (Z.to_nat (cursor - i)) cs) else ccol.
+  Proof.
+    induction cs as [|c cs IH]; intros i col ccol cursor w Hw Hi Hf.
+    - cbn [draw_walk]. rewrite zlen_nil. destruct ((i <? cursor) && (cursor <=? i + 0)) eqn:E; [lia|reflexivity].
+    - inversion Hw as [|? ? Hc0 Hw']; subst. pose proof (cl_width_nonneg cs Hw') as Hn.
+      rewrite cl_width_cons in Hf. cbn [draw_walk].
+      destruct (i <? 0) eqn:E0; [lia|]. destruct (col + snd c >=? w) eqn:E4; [lia|].
+      rewrite IH by (auto; lia). rewrite zlen_cons. pose proof (zlen_nonneg cs) as Hz.
+      destruct (i + 1 =? cursor) eqn:E1.
+      + assert (cursor = i + 1) as -> by lia.
+        destruct ((i + 1 <? i + 1) && (i + 1 <=? i + 1 + zlen cs)) eqn:E2; [lia|].
+        destruct ((i <? i + 1) && (i + 1 <=? i + (zlen cs + 1))) eqn:E3; [|lia].
+        rewrite firstn_succ_cons by lia. replace (i + 1 - i - 1) with 0 by lia.
+      cbn [Z.to_nat firstn]. rewrite cl_width_cons. cbn [cl_width fold_right]. lia.
+      + destruct ((i + 1 <? cursor) && (cursor <=? i + 1 + zlen cs)) eqn:E2.
+        * destruct ((i <? cursor) && (cursor <=? i + (zlen cs + 1))) eqn:E3; [|lia].
+          rewrite firstn_succ_cons by lia. rewrite cl_width_cons.
+          replace (cursor - i - 1) with (cursor - (i + 1)) by lia. lia.
+        * destruct ((i <? cursor) && (cursor <=? i + (zlen cs + 1))) eqn:E3; [lia|reflexivity].
+  Qed.
+
+  Theorem ti_drawn_cursor_column m w :
+    widths_ok (ti_prompt m) -> widths_ok (ti_content m) ->
+    0 <= ti_cursor m <= zlen (ti_content m) -> ti_offset m = 0 ->
+    cl_width (ti_prompt m) + cl_width (ti_content m) + scrolloff < w ->
+    ti_draw m w = DrawDone 0 (Some (cl_width (ti_prompt m) +
+                                    cl_width (firstn (Z.to_nat (ti_cursor m)) (ti_content m)))).
+  Proof.
+    intros Hp Hc Hcur Hoff Hfit. unfold ti_draw, scrolloff in *.
+    pose proof (cl_width_nonneg _ Hp) as Hp0. pose proof (cl_width_nonneg _ Hc) as Hc0.
+    destruct (w =? 0) eqn:E; [lia|]. rewrite prompt_walk_fit by (auto; lia). rewrite Hoff.
+    pose proof (wtc_bounds (ti_content m) 0 (ti_cursor m) 0 0 Hc) as Hb. fold (width_to_cursor (ti_content m) (ti_cursor m) 0) in Hb.
+    unfold scroll_fuel. cbn [scroll_loop]. unfold scrolloff.
+    destruct ((width_to_cursor (ti_content m) (ti_cursor m) 0 + (0 + cl_width (ti_prompt m)) + 4 >=? w) && (0 <? ti_cursor m)) eqn:E1; [lia|].
+    unfold scroll_back, scrolloff.
+    assert (E2 : (if (if ti_cursor m - 4 - 0 <? 0 then ti_cursor m - 4 else 0) <? 0 then 0
+                  else if ti_cursor m - 4 - 0 <? 0 then ti_cursor m - 4 else 0) = 0).
+    { destruct (ti_cursor m - 4 - 0 <? 0) eqn:E3; [|reflexivity]. destruct (ti_cursor m - 4 <? 0) eqn:E4; lia. }
+    rewrite E2. rewrite draw_walk_fit by (auto; lia).
+    destruct ((0 <? ti_cursor m) && (ti_cursor m <=? 0 + zlen (ti_content m))) eqn:E5.
+    - rewrite Z.sub_0_r. repeat f_equal; lia.
+    - assert (ti_cursor m = 0) as -> by lia. cbn. repeat f_equal; lia.
+  Qed.
+End TextInputDraw.
+
+(* ================================================================== the Draw fix *)
+
+(* before the fix the scroll loop had no bound: in a window at most scrolloff columns
+   wider than the prompt it never terminates, whatever the content *)
+Lemma scroll_loop_orig_hangs fuel cs cursor offset col w :
+  widths_ok cs -> w <= col + scrolloff -> scroll_loop_orig fuel cs cursor offset col w = None.
+Proof.
+  intros Hw Hn. revert offset; induction fuel as [|f IH]; intros offset; cbn [scroll_loop_orig];
+    pose proof (wtc_bounds cs 0 cursor offset 0 Hw) as Hb; fold (width_to_cursor cs cursor offset) in Hb;
+    destruct (width_to_cursor cs cursor offset + col + scrolloff >=? w) eqn:E; try lia; auto.
+Qed.
+
+Lemma scroll_loop_orig_ge fuel cs cursor col w : forall offset o,
+  scroll_loop_orig fuel cs cursor offset col w = Some o -> offset <= o.
+Proof.
+  induction fuel as [|f IH]; intros offset o; cbn [scroll_loop_orig];
+    destruct (width_to_cursor cs cursor offset + col + scrolloff >=? w); try discriminate.
+  - intros H; injection H as <-; lia.
+  - intros H; apply IH in H; lia.
+  - intros H; injection H as <-; lia.
+Qed.
+
+Lemma scroll_back_past cursor o : cursor <= o -> scroll_back cursor o = scroll_back cursor cursor.
+Proof.
+  intros H. unfold scroll_back, scrolloff.
+  destruct (cursor - 4 - o <? 0) eqn:E1; [|lia]. destruct (cursor - 4 - cursor <? 0) eqn:E2; [reflexivity|lia].
+Qed.
+
+(* whenever the unfixed loop terminates, the fixed loop ends in the same scroll offset
+   once the scroll-back step that follows it has run: the fix changes nothing but the hang *)
+Theorem draw_fix_conservative fuel cs cursor col w : forall offset o,
+  scroll_loop_orig fuel cs cursor offset col w = Some o ->
+  exists o', scroll_loop (S (Z.to_nat (cursor - offset))) cs cursor offset col w = Some o' /\
+             scroll_back cursor o' = scroll_back cursor o.
+Proof.
+  induction fuel as [|f IH]; intros offset o H; cbn [scroll_loop_orig] in H; cbn [scroll_loop];
+    destruct (width_to_cursor cs cursor offset + col + scrolloff >=? w) eqn:E; try discriminate.
+  - injection H as <-. exists offset; auto.
+  - destruct (offset <? cursor) eqn:E2; cbn [andb].
+    + destruct (IH _ _ H) as (o' & H1 & H2). exists o'. split; [|exact H2].
+      replace (Z.to_nat (cursor - offset)) with (S (Z.to_nat (cursor - (offset + 1)))) by lia. exact H1.
+    + exists offset. split; [reflexivity|]. apply scroll_loop_orig_ge in H.
+      rewrite (scroll_back_past cursor offset), (scroll_back_past cursor o) by lia. reflexivity.
+  - injection H as <-. exists offset; auto.
+Qed.
+
+(* ================================================================== refutations kept on record *)
+
+(* assigning the exported field Value directly leaves the cached count stale: End does
+   not reach the end of the text *)
+Lemma tf_direct_value_witness :
+  let seg := seg_tab demo_alpha in
+  let os := [TSetValue [97; 98]; TKey TkEnd] in
+  tf_run seg tf_empty os = Some (mkTf [97; 98] 0 0, []) /\
+  i_run (fun _ => false) (mkIdeal [] []) (map (tf_abs seg) os) = mkIdeal [[98]; [97]] [].
+Proof. vm_compute. split; reflexivity. Qed.
+
+(* the scroll offset is sticky: after a Draw in a narrow window, a Draw in a window in
+   which prompt + text + scrolloff fit still shows the tail only *)
+Lemma ti_sticky_offset_witness :
+  let chars := chars_tab demo_alpha in
+  let s := repeat 97 20 in
+  exists m, ti_run chars demo_alnum (ti_new []) [OEv (EDefault false s); ODraw 10] = Some m /\
+            ti_offset m = 15 /\ ti_cursor m = 20 /\ cl_width (ti_content m) = 20 /\
+            ti_draw m 80 = DrawDone 15 (Some 5).
+Proof. vm_compute. eexists; repeat split; reflexivity. Qed.
